@@ -68,7 +68,7 @@ func eqUnsound(fn *ssa.Function, depth int) string {
 // summaryAnnotation: the per-container summary annotation follows the final spec (shared by C13 and C14).
 func summaryAnnotation(c *Ctx) {
 	r := c.R
-	r.Rule("PATH/EQ(summary annotation): in mutateByExtendedResources, after the stored annotation was read without error, no return is reachable without SetExtendedResourceSpec(pod, <computed spec>) unless the equality test of computed and stored spec held; that test is reflect.DeepEqual / Semantic.DeepEqual or an in-package helper that cannot report equal for operands of different size; getContainerExtendedResourcesRequirement copies Requests from Requests and Limits from Limits under the same resource name")
+	r.Rule("PATH/EQ(summary annotation): extension.SetExtendedResourceSpec returns nil for a pod only after writing (or deleting) the annotation; in mutateByExtendedResources, after the stored annotation was read without error, no return is reachable without SetExtendedResourceSpec(pod, <computed spec>) unless the equality test of computed and stored spec held; that test is reflect.DeepEqual / Semantic.DeepEqual or an in-package helper that cannot report equal for operands of different size; getContainerExtendedResourcesRequirement copies Requests from Requests and Limits from Limits under the same resource name")
 	fn := c.Fn(podMutPkg, "PodMutatingHandler", "mutateByExtendedResources")
 	if fn == nil {
 		return
@@ -136,6 +136,40 @@ func summaryAnnotation(c *Ctx) {
 	reach := an.Explore(fn, an.After(get), f, func(in ssa.Instruction) bool { return in == ssa.Instruction(set) })
 	r.Check(len(reach.Returns()) == 0, "PATH", key+"/refresh", c.InstrPos(set), "a differing annotation is always rewritten", "with a stored annotation that differs from the computed one a return is reachable without SetExtendedResourceSpec")
 
+	if st := c.Fn("apis/extension", "", "SetExtendedResourceSpec"); st != nil {
+		// with a pod at hand, success means the annotation now says what the spec says (also an empty spec: it is how a
+		// stale annotation is overwritten)
+		f := an.Facts{}
+		for _, b := range st.Blocks {
+			for _, in := range b.Instrs {
+				if bo, ok := in.(*ssa.BinOp); ok && (bo.Op == token.EQL || bo.Op == token.NEQ) && bo.X == ssa.Value(st.Params[0]) && an.IsNilConst(bo.Y) {
+					if bo.Op == token.EQL {
+						f[bo] = an.False
+					} else {
+						f[bo] = an.True
+					}
+				}
+			}
+		}
+		reach := an.Explore(st, nil, f, func(in ssa.Instruction) bool {
+			switch x := in.(type) {
+			case *ssa.MapUpdate:
+				return strings.HasSuffix(an.Path(x.Map), ".Annotations")
+			case ssa.CallInstruction:
+				return an.IsBuiltinCall(x.Value(), "delete") && strings.HasSuffix(an.Path(x.Common().Args[0]), ".Annotations")
+			}
+			return false
+		})
+		bad := ""
+		for _, ret := range reach.Returns() {
+			for _, alt := range reach.Alts(ret) {
+				if reach.EvalAlt(alt, 0) != an.NonNil {
+					bad = c.InstrPos(ret)
+				}
+			}
+		}
+		r.Check(len(f) >= 1 && bad == "", "PATH", fkey(st)+"/success=>annotation-written", c.Pos(st.Pos()), "a successful call has written (or removed) the annotation", "SetExtendedResourceSpec can return nil for a pod (at "+bad+") without touching the annotation: an empty summary no longer overwrites a stale one, while the webhook reports the pod as mutated")
+	}
 	if g := c.Fn(podMutPkg, "", "getContainerExtendedResourcesRequirement"); g != nil {
 		n := 0
 		okAll := true
